@@ -31,7 +31,11 @@ Report(kind, viol, extra) ==
 
 \* what a call contributes to the observation stream compared between configurations:
 \* records and errors with all fields and reported positions; record-set batches flattened
-Core(r) == IF r.k = "rec" THEN [k |-> "rec", head |-> r.head, lines |-> r.lines, qual |-> r.qual]
+\* (with the views logged, what the header accessors and the owned copies give is part of the observation: it must not depend
+\* on the rendering / configuration either)
+ViewObs(r) == IF "v" \notin DOMAIN r THEN <<>>
+              ELSE LET v == r.v IN <<v.id, v.desc, v.id2, v.desc2, v.oid, v.odesc, v.id_str, v.desc_str, v.id_desc_str, v.ohead, v.oseq>>
+Core(r) == IF r.k = "rec" THEN [k |-> "rec", head |-> r.head, lines |-> r.lines, qual |-> r.qual, vw |-> ViewObs(r)]
            ELSE IF "msg" \in DOMAIN r THEN [f \in DOMAIN r \ {"msg"} |-> r[f]] ELSE r
 \* line endings change byte offsets but not line numbers (C12)
 \* (and where the reader stands after the end of input is not a property of the records)
